@@ -1,9 +1,13 @@
 mod c01;
+mod c02;
+mod c06;
 mod eng;
 mod gen;
 mod mdoc;
 mod optrep;
+mod refint;
 mod report;
+mod rx;
 
 use report::Tier;
 
@@ -49,6 +53,8 @@ fn main() {
     };
     let code = match args[1].as_str() {
         "C01" => c01::run(tier),
+        "C02" => c02::run(tier),
+        "C06" => c06::run(tier),
         x => {
             eprintln!("unknown check {}", x);
             2
